@@ -8,4 +8,5 @@ ls -d /verif/seeded/$PAT/ | while read d; do
   n=$(basename $d); id=$(echo $n | cut -c1-3)
   [ -f "$d/patch.diff" ] && echo "$id $n $d/patch.diff"
 done | xargs -P $PAR -L 1 sh -c 'R=$(/verif/tools/try_mutant2.sh $2 $0 | tr "\n" " " | cut -c1-600); echo "$1: $R"' >> "$OUT" 2>&1
+rm -rf ${VERIF_MUTANT_GOCACHE:-/tmp/gocache-mutants}
 echo SWEEP-DONE >> "$OUT"
